@@ -281,6 +281,15 @@ def main(argv):
         log(f"HARNESS-ERROR property={pid} {e}")
         return 2
 
+    try:
+        with open(os.path.join(WORK, pid, "violations.jsonl"), "w") as f:
+            for v in merged["violations"]:
+                f.write(json.dumps(v) + "\n")
+        with open(os.path.join(WORK, pid, "inconclusive.jsonl"), "w") as f:
+            for v in merged["inconclusive"]:
+                f.write(json.dumps(v) + "\n")
+    except OSError:
+        pass
     findings = load_findings(pid)
     hits, rest = attribute(merged["violations"], findings)
     for f in findings:
